@@ -90,7 +90,8 @@ func lifecycleTraces(h H) *lifeResult {
 		return false
 	}
 	// ---------------------------------------------------------------- startWithListenerFds
-	failPoints := []string{"", "validate", "makeservers", "first1", "first2", "startup1", "startup2", "startservers"}
+	// "panic:<step>": the step does not return an error, it panics (a plugin's setup function, a start-up callback)
+	failPoints := []string{"", "validate", "makeservers", "first1", "first2", "startup1", "startup2", "startservers", "panic:validate", "panic:startup1", "panic:startservers"}
 	for _, upgrade := range []bool{false, true} {
 		for _, restart := range []bool{false, true} {
 			for _, fail := range failPoints {
@@ -103,6 +104,9 @@ func lifecycleTraces(h H) *lifeResult {
 				outcome := func(name string) aval {
 					if fail == name {
 						return errObj(name)
+					}
+					if fail == "panic:"+name {
+						return apanic{}
 					}
 					return anil{}
 				}
@@ -136,6 +140,16 @@ func lifecycleTraces(h H) *lifeResult {
 				if und != "" {
 					if res.oStart == "" {
 						res.oStart = "startWithListenerFds, " + desc + ": undecided — " + und
+					}
+					continue
+				}
+				if strings.HasPrefix(fail, "panic:") {
+					if _, unwound := r.(apanic); !unwound {
+						if res.oStart == "" {
+							res.oStart = "startWithListenerFds, " + desc + ": undecided — the scripted panic did not unwind the function (result " + describeAval(r) + ")"
+						}
+					} else if inList(env, inst) && res.cleanup == "" {
+						res.cleanup = desc + ": the start-up panicked and the instance stays in the instance list — it never went live, and process shutdown will run its callbacks"
 					}
 					continue
 				}
